@@ -222,6 +222,64 @@ def fmt(x):
     return str(x)
 
 
+# ------------------------------------------------------------ isolation ----
+def run_isolated(fn, *args, timeout=600):
+    """Run fn(*args) in a forked child and return its (picklable) result.  Used for machines whose
+    subject may keep process-global state (module-level caches, function defaults): every run then
+    starts from the same pristine state, so one run cannot influence the next and a violation
+    found in a worker replays in a fresh interpreter."""
+    import pickle
+    import select
+    r, w = os.pipe()
+    pid = os.fork()
+    if pid == 0:
+        code = 0
+        try:
+            os.close(r)
+            try:
+                out = ("ok", fn(*args))
+            except BaseException as e:                      # noqa
+                import traceback
+                out = ("exc", type(e).__name__, str(e), traceback.format_exc())
+            data = pickle.dumps(out)
+            with os.fdopen(w, "wb") as f:
+                f.write(data)
+        except BaseException:                               # noqa
+            code = 1
+        finally:
+            os._exit(code)
+    os.close(w)
+    chunks = []
+    with os.fdopen(r, "rb") as f:
+        while True:
+            ready, _, _ = select.select([f], [], [], timeout)
+            if not ready:
+                os.kill(pid, 9)
+                os.waitpid(pid, 0)
+                raise HarnessError("isolated run timed out")
+            b = f.read(1 << 20)
+            if not b:
+                break
+            chunks.append(b)
+    os.waitpid(pid, 0)
+    if not chunks:
+        raise HarnessError("isolated run died without a result")
+    out = pickle.loads(b"".join(chunks))
+    if out[0] == "exc":
+        if out[1] == "HarnessError":
+            raise HarnessError(out[2])
+        raise HarnessError(f"exception in simulator code ({out[1]}: {out[2]})\n{out[3]}")
+    return out[1]
+
+
+def execute_machine(machine, triple, prop):
+    """execute(), isolated in a forked child when the machine asks for it."""
+    import copy
+    if getattr(machine, "ISOLATE", False):
+        return run_isolated(machine.execute, copy.deepcopy(triple), prop)
+    return machine.execute(copy.deepcopy(triple), prop)
+
+
 # ------------------------------------------------------------ minimiser ----
 def ddmin(items, test):
     """Classic delta debugging over a list; `test(sub)` is True when the
@@ -262,8 +320,8 @@ def minimise(machine, prop, triple, violation, budget_execs=400):
             return False
         count[0] += 1
         try:
-            r = machine.execute(copy.deepcopy(t), prop)
-        except HarnessError:
+            r = execute_machine(machine, t, prop)
+        except Exception:                                   # noqa  (a shrink candidate may be an ill-formed world)
             return False
         v = r.get("violation")
         return bool(v) and (v["property"], v["oracle"]) == target
